@@ -240,6 +240,21 @@ CLAIMED = {
         technique="contract-based deductive verification of the real _flatten per object kind + SMT prefix-freeness "
                   "lemmas + set-iteration audit",
     ),
+    'C24': dict(
+        category='proof', engine='pyvc',
+        text="Every function of _cffi_gen_src.py is under a call-trace contract: read_sources performs exactly "
+             "FFI(); cdef(cdef text); set_source(module name, prelude); emit_c_code(buffer) and writes the buffer's "
+             "text unchanged to the UTF-8 output file or, for '-', to sys.stdout and nothing else; exec_python uses "
+             "the object bound under --ffi-var (called iff it is a non-FFI callable; NameError/TypeError otherwise), "
+             "the script runs once as module cffi.gen_src with sys.path restored; _make_c_or_py_source with a "
+             "file-like target prints nothing to sys.stdout; both documented invocations reach the same run().",
+        design_ref='DESIGN.md section 4 C24',
+        note="Trusted: vf/pyexec.py; FFI.emit_c_code's text is a ghost function of the FFI object on both sides; "
+             "argparse, exec() and run()'s dispatch are assumed; byte identity with emit_c_code(path) assumes a UTF-8 "
+             "default encoding (the recompiler opens its file with the locale encoding).",
+        technique="contract-based deductive verification as call-trace contracts (pyvc) + syntactic entry-point "
+                  "obligations",
+    ),
     'C25': dict(
         category='proof',
         text="search_sorted (the binary search behind all four runtime lookups) is verified with a loop invariant "
